@@ -197,6 +197,33 @@ func getC16Tree(seed uint64) (*c16Tree, error) {
 		}
 		c.files["big/big.go"].oversize = true
 	}
+	// a directory whose first entry is a dangling symlink named like a Go file:
+	// the link itself cannot be analysed (reported with an error), the package it
+	// sits in does not load either, and the sub-directory sorting after it is an
+	// ordinary analysable package
+	if r.Intn(2) == 0 {
+		if err := add("links/b_real.go", small("links", "RealAfterLink"), true, false); err != nil {
+			return nil, err
+		}
+		if err := add("links/sub/c.go", small("sub", "InSubdirAfterLink"), true, true); err != nil {
+			return nil, err
+		}
+		os.Symlink("/nonexistent/verif/target.go", filepath.Join(c.target, "links", "a_dangling.go"))
+		c.files["links/a_dangling.go"] = &truthFile{rel: "links/a_dangling.go", mustCollect: true, compilable: false}
+	}
+	// two byte-identical files at different paths (each its own package directory)
+	if r.Intn(2) == 0 {
+		same := small("twin", "Twin")
+		if err := add("twin1/t.go", same, true, true); err != nil {
+			return nil, err
+		}
+		if err := add("twin2/t.go", same, true, true); err != nil {
+			return nil, err
+		}
+		if err := add("zz/twin3/t.go", same, true, true); err != nil {
+			return nil, err
+		}
+	}
 	// a tiny JSON signature database (content irrelevant for coverage)
 	c.jsonDB = filepath.Join(root, "sigs.json")
 	os.WriteFile(c.jsonDB, []byte(`{"version":"1.0","description":"c16","signatures":[{"id":"S1","name":"s","description":"","severity":"LOW","category":"c","topology_hash":"00","entropy_score":1,"entropy_tolerance":0.1,"node_count":1,"loop_depth":0,"identifying_features":{},"metadata":{"author":"","created":""}}]}`), 0o644)
